@@ -1,6 +1,10 @@
 package rules
 
-import "fqverif/fw"
+import (
+	"strings"
+
+	"fqverif/fw"
+)
 
 // rules shared across properties, attached without touching the property's own files
 func init() {
@@ -14,7 +18,17 @@ func init() {
 			r.Import(sc, "C08.pure", "C07.wrappure", "standard functions applied to a fromjson / --argjson / JSON-input value (length, keys, has, index ...) only read it: no gojqx wrapper method writes through memory it did not allocate, math/big receivers are fresh (length of a negative big integer must not flip the number itself) (C08.pure obligations)", 100, nil)
 			r.Import(sc, "C08.iface", "C07.wrappers", "the gojqx wrappers of JSON values (what fromjson, --argjson and decoded JSON hand to standard jq functions) answer length/index/slice/each/keys/has/key from one collection with the plain value's semantics (C08.iface obligations, without the recorded String.Index finding)", 25,
 				func(k string) bool { return k != "String.Index:out-of-range" })
+			// `.key` and tonumber on a fromjson / --argjson value
+			r.Import(sc, "C08.fallback", "C07.wrapkeys", "`.key` on a wrapped JSON value (fromjson, json input) answers the value's own key exactly when the value has it - also when it holds null - and fq's extension keys only otherwise (C08.fallback obligations)", 2, nil)
+			r.Import(sc, "C08.strnum", "C07.wrapnum", "tonumber of a wrapped JSON string accepts exactly the texts the engine's own number syntax accepts (C08.strnum obligation)", 1, nil)
 		}
+	})
+	// named arguments: every --arg/--argjson/--rawfile/--decode-file entry becomes a variable of the program, whatever its value
+	RegisterExtra("C17", func(r *fw.Run, p *fw.Program) {
+		sc := r.Scratch()
+		c07Eval(sc, p)
+		r.Import(sc, "C07.eval", "C17.vars", "every named argument given on the command line is bound as a $variable of the program, a null value included: the variables loop of Interp.Eval binds every entry, names and values paired (C07.eval variables obligations)", 1,
+			func(k string) bool { return strings.HasPrefix(k, "variables") })
 	})
 	// a program that fails under the reference engine fails under fq: whatever value the program raised (null and false
 	// included) is recorded as a truthy error, so the run reports failure (C17.writes / C17.handlers obligations)
@@ -37,6 +51,7 @@ func init() {
 		sc := r.Scratch()
 		if f := Get("C08"); f != nil {
 			f(sc, p)
+			r.Import(sc, "C08.kinds", "C18.lazyclone", "the lazy producers of a decode value's string/bytes read from a clone of the value's reader, never seek or read the value's own reader: its position is state every evaluation of the field shares (C08.kinds obligations)", 10, nil)
 			r.Import(sc, "C08.pure", "C18.pure", "no JQValue method of fq's value wrappers writes through memory it did not allocate (math/big receivers are fresh): reading a decode value in one evaluation never changes what later evaluations see (C08.pure obligations)", 100, nil)
 		}
 	})
